@@ -395,6 +395,13 @@ def oracle_extend(models, outcome):
 		problems.append(('unaligned-above-closure', f'requires_unaligned is set on {sorted(marked - closure)} outside the closure of the rules'))
 	if not demanded and marked:
 		problems.append(('unaligned-nonempty', f'no rule applies but requires_unaligned is set on {sorted(marked)}'))
+	# rule 2 read on the marks themselves ("descendants of marked factories"): a struct whose factory type carries the mark carries it too,
+	# at any depth of the hierarchy and for every iteration order of struct_names (the order only decides which MEMBERS are walked)
+	structs = {model.name: model for model in models if is_struct(model)}
+	orphans = sorted(name for name, model in structs.items() if model.factory_type in marked and model.factory_type in structs and name not in marked)
+	if orphans:
+		problems.append(('unaligned-descendant-of-marked-factory-unmarked', 'requires_unaligned is set on the factory type of '
+			+ ', '.join(f'{name} ({structs[name].factory_type})' for name in orphans[:6]) + ' but not on the descendant itself'))
 	problems += oracle_bindings(models)
 	return problems
 
@@ -416,6 +423,9 @@ class SchemaGen:
 		self.factories = [f'Fact{chr(65 + i)}x' for i in range(rng.choice([0, 1, 1, 2, 2, 3, 4]))]
 		self.plain = [f'Plain{chr(65 + i)}x' for i in range(rng.randrange(1, 6))]
 		self.templates = [f'Templ{chr(65 + i)}x' for i in range(rng.randrange(0, 2))]
+		# inline-only structs that several containers take in through an UNNAMED inline (their members are shared, not copied)
+		self.shared = [f'Shared{chr(65 + i)}x' for i in range(rng.choice([0, 0, 1, 1, 2]))]
+		self.alias_types = {alias: rng.choice(['uint32', 'uint64', 'uint8', 'uint16', 'binary_fixed(32)', 'binary_fixed(8)']) for alias in self.aliases}
 		self.descendants = {}
 		counter = 0
 		for factory in self.factories:
@@ -433,6 +443,14 @@ class SchemaGen:
 	def scalar_type(self):
 		pool = INTS + self.aliases * 2 + self.enums * 2
 		return self.rng.choice(pool)
+
+	def size_type(self):
+		"""type of a count / byte-size member: a builtin integer or a user-defined ALIAS of one"""
+		integer_aliases = [alias for alias in self.aliases if self.alias_types[alias].startswith('uint')]
+		if integer_aliases and self.rng.randrange(3) == 0:
+			self.features.add('size-member-of-alias-type')
+			return self.rng.choice(integer_aliases)
+		return self.rng.choice(['uint8', 'uint16', 'uint32'])
 
 	def struct_names(self):
 		return self.plain + self.factories + [name for names in self.descendants.values() for name in names]
@@ -484,13 +502,13 @@ class SchemaGen:
 					size_name = f'{name}_size' if style == 3 else f'{name}_count'
 					after = style == 4
 					if not after:
-						lines.append(f'{size_name} = {rng.choice(["uint8", "uint16", "uint32"])}')
+						lines.append(f'{size_name} = {self.size_type()}')
 					if style == 3:
 						lines.append('@is_byte_constrained')
 						self.features.add('byte-size')
 					lines.append(f'{name} = array({element}, {size_name})')
 					if after:
-						lines.append(f'{size_name} = uint16')
+						lines.append(f'{size_name} = {self.size_type()}')
 						self.features.add('count-after-array')
 					shared_count = size_name
 			elif roll < 11 and names:
@@ -514,12 +532,17 @@ class SchemaGen:
 	def build(self):
 		rng = self.rng
 		for alias in self.aliases:
-			self.lines += [f'using {alias} = {rng.choice(["uint32", "uint64", "uint8", "binary_fixed(32)", "binary_fixed(8)"])}', '']
+			self.lines += [f'using {alias} = {self.alias_types[alias]}', '']
 		for enum in self.enums:
 			self.lines += [f'enum {enum} : {rng.choice(["uint8", "uint16", "uint32"])}'] + [f'\tVALUE_{k} = {k}' for k in range(1, rng.randrange(2, 5))] + ['']
 		for template in self.templates:
 			element = rng.choice(self.struct_names() + self.aliases)
 			self.emit([f'inline struct {template}'], ['count = uint8', f'items = array({element}, count)'])
+		for index, shared in enumerate(self.shared):
+			# always one array of structs (rule 1 looks at the CONTAINER of such a member), then anything
+			lines = [f'sh{index}_items_count = {self.size_type()}', f'sh{index}_items = array({rng.choice(self.struct_names())}, sh{index}_items_count)']
+			lines += self.body(f'sh{index}', rng.randrange(0, 3), allow_fill=False)
+			self.emit([f'inline struct {shared}'], lines)
 		blocks = []
 		for index, factory in enumerate(self.factories):
 			header = []
@@ -577,6 +600,11 @@ class SchemaGen:
 				self.features.add('deep')
 				for position, factory in enumerate(rng.sample(self.factories, rng.randrange(1, min(2, len(self.factories)) + 1))):
 					lines.insert(0, f'deep{position}_items = array({factory}, {rng.randrange(1, 4)})')
+			for shared in self.shared:
+				if rng.randrange(2):
+					# (own members never refer to the inherited ones: those references are the subject of the directed cases)
+					lines.insert(rng.choice([0, len(lines)]), f'inline {shared}')
+					self.features.add('shared-unnamed-inline')
 			blocks.append(('plain', header + [f'struct {name}'], lines))
 		if rng.randrange(3):
 			rng.shuffle(blocks)
@@ -632,9 +660,38 @@ DIRECTED = {
 		'LEAF_VERSION = make_const(uint8, 1)\n\tinline Middle\n\tamount = uint64\n\n'
 		'@initializes(kind, LEAF_KIND)\n@initializes(version, LEAF_VERSION)\nstruct LeafTwo\n\tLEAF_KIND = make_const(Kind, LEAF)\n\t'
 		'LEAF_VERSION = make_const(uint8, 2)\n\tinline Middle\n\tamount = uint64\n\tfee = uint64\n',
+	# count / byte-size members declared with a user-defined alias of an integer (before and after the array, byte constrained, byte array)
+	'size-members-of-alias-type':
+		'using EntryCount = uint16\nusing PayloadSize = uint32\n\n@is_size_implicit\nstruct Entry\n\tkey = uint64\n\n'
+		'struct TypedTable\n\tentries_count = EntryCount\n\tentries = array(Entry, entries_count)\n\ttrailing = array(Entry, trailing_count)\n\t'
+		'trailing_count = EntryCount\n\n'
+		'struct TypedPackedTable\n\tpayload_size = PayloadSize\n\treserved_1 = make_reserved(uint32, 0)\n\t@is_byte_constrained\n\t'
+		'entries = array(Entry, payload_size)\n\nstruct TypedMessage\n\tmessage_size = PayloadSize\n\tmessage = array(uint8, message_size)\n\t'
+		'first_size = sizeof(uint16, first)\n\tfirst = Entry\n',
+	# one inline-only struct with an array of aligned structs, taken in (unnamed) by an aligned container FIRST and by unaligned ones later,
+	# and the other way round: rule 1 depends on the container, not on the shared member
+	'shared-unnamed-inline-aligned-container-first':
+		'@is_aligned\nstruct Cosignature\n\tversion = uint64\n\nstruct Marker\n\tvalue = uint8\n\n'
+		'inline struct PayloadBody\n\tcosignatures_count = uint32\n\tmarkers_count = uint32\n\tcosignatures = array(Cosignature, cosignatures_count)\n\t'
+		'markers = array(Marker, markers_count)\n\n'
+		'@is_aligned\nstruct AlignedPayload\n\tsize = uint64\n\tinline PayloadBody\n\n'
+		'struct PackedPayload\n\ttag = uint8\n\tinline PayloadBody\n\n@is_aligned\nstruct AlignedAgain\n\tinline PayloadBody\n',
+	'shared-unnamed-inline-unaligned-container-first':
+		'@is_aligned\nstruct Cosignature\n\tversion = uint64\n\n'
+		'inline struct PayloadBody\n\tcosignatures_count = uint32\n\tcosignatures = array(Cosignature, cosignatures_count)\n\n'
+		'struct PackedPayload\n\ttag = uint8\n\tinline PayloadBody\n\n@is_aligned\nstruct AlignedPayload\n\tsize = uint64\n\tinline PayloadBody\n',
+	# KNOWN FINDING (kept as a directed case): two structs take in the same struct by unnamed inline; the first measures an inherited member
+	# with a sizeof member.  expand_unnamed_inlines shares the member OBJECTS between the two users and _process_struct replaces the shared
+	# member's extensions when it reaches the second user, so the measured member forgets its size member.
+	'shared-unnamed-inline-with-sizeof':
+		'@is_size_implicit\nstruct Item\n\tvalue = uint32\n\ninline struct Shared\n\tfirst = Item\n\tcount = uint8\n\titems = array(Item, count)\n\n'
+		'struct One\n\tinline Shared\n\tfirst_size = sizeof(uint16, first)\n\nstruct Two\n\tinline Shared\n\tother = uint8\n',
 	'missing-initializer':
 		'@discriminator(kind, version)\nabstract struct Base\n\tkind = uint8\n\tversion = uint8\n\n@initializes(kind, ONE)\nstruct Derived\n\tinline Base\n',
 }
+
+
+KNOWN_SHARED_INLINE = 'shared-unnamed-inline-with-sizeof'
 
 
 def gen_cases(rng, tier):
@@ -743,7 +800,7 @@ def run(check, unrecognised):
 		check.case(f'{case["kind"]}:{result["shape"]["outcome"]}' + (':fm-crash' if result['text'].startswith('crash') else ''), key)
 		for feature in case.get('features', []):
 			features[feature] = features.get(feature, 0) + 1
-		if model != '=':
+		if model != '=' and case.get('name') != KNOWN_SHARED_INLINE:
 			check.disagree('Derive-model-vs-generators.util', {'case': case_label(case), 'schema': case.get('text'), 'order': result['shape']['order']},
 				result['text'][:3000], model[:3000])
 		if result['problems']:
@@ -764,8 +821,10 @@ def run(check, unrecognised):
 			same_signature.setdefault(signature, []).append(case_label(case))
 	for _, case, result in failing:
 		for signature, text in result['problems']:
+			if case.get('name') == KNOWN_SHARED_INLINE and signature == 'binding-size-fields':
+				signature = 'binding-size-fields:members-shared-between-two-users-of-an-unnamed-inline'
 			payload = replay_payload(case, result)
-			others = same_signature[signature]
+			others = same_signature.get(signature, [case_label(case)])
 			payload['same_signature_cases'] = {
 				'count': len(others), 'shipped': [label for label in others if '/' in label], 'first': others[:8]}
 			check.fail(signature, f'{case_label(case)}: {text}', payload)
@@ -774,9 +833,31 @@ def run(check, unrecognised):
 
 
 def replay(data):
+	import json
+	import os
+	import subprocess
+	import sys
+	import tempfile
 	case = data['replay']['case']
 	result = evaluate(case)
+	if not result['problems'] and not os.environ.get('SYMV_C18_REPLAY_CHILD'):
+		# extend_models walks a Python set of struct names: its order depends on the string hash seed of the process, and the property
+		# quantifies over every order.  The same input is run under other hash seeds (fresh interpreters) until one shows the failure.
+		with tempfile.NamedTemporaryFile('w', suffix='.json', encoding='utf8', delete=False) as handle:
+			json.dump(data, handle)
+		try:
+			for seed in range(24):
+				env = dict(os.environ, PYTHONHASHSEED=str(seed), SYMV_C18_REPLAY_CHILD='1')
+				proc = subprocess.run([sys.executable, str(common.VERIF / 'run.py'), 'replay', handle.name], env=env, stdout=subprocess.PIPE,
+					stderr=subprocess.STDOUT, text=True, timeout=600, check=False)
+				if proc.returncode == 1:
+					print(f'(holds under the hash seed of this process; PYTHONHASHSEED={seed}:)')
+					print(proc.stdout, end='')
+					return 1
+		finally:
+			os.unlink(handle.name)
 	print('observed:', result['text'][:2000])
+	print('struct_names order:', result['shape']['order'])
 	for signature, text in result['problems']:
 		print(f'property: FAILS [{signature}] {text}')
 	if not result['problems']:
